@@ -311,6 +311,9 @@ func refQuirk(src string) string {
 			break
 		}
 		rest = rest[i+4:]
+		if strings.HasPrefix(rest, ">") || strings.HasPrefix(rest, "->") {
+			return "spec-0.31-html-comment"
+		}
 		j := strings.Index(rest, "-->")
 		if j < 0 {
 			continue
